@@ -7,7 +7,7 @@
                        pulse and every t in [0, total) the program plays  at_ pcs c t  (half-open junctions). *)
 From Coq Require Import ZArith QArith List Bool.
 Require Import QV.C01.Model QV.C01.Spec QV.C01.Proofs QV.C01.ProofsDefs QV.C01.Proofs_trafo QV.C01.Proofs_table
-        QV.C01.Proofs_comp QV.C01.Proofs_atoms QV.C01.Proofs_main QV.C01.Proofs_sampling QV.C01.Proofs_leaves QV.C01.Proofs_atoms2 QV.C01.Proofs_chans QV.C01.Proofs_builder QV.C01.Proofs_dec.
+        QV.C01.Proofs_comp QV.C01.Proofs_atoms QV.C01.Proofs_main QV.C01.Proofs_sampling QV.C01.Proofs_leaves QV.C01.Proofs_atoms2 QV.C01.Proofs_chans QV.C01.Proofs_builder QV.C01.Proofs_dec QV.C01.Proofs_arith QV.C01.Proofs_r5.
 Import ListNotations.
 Open Scope Q_scope.
 
@@ -321,3 +321,80 @@ Example C01_repetition_boundary_decimal :
     map (play prog (ChS 1)) [0; 1 # 10; 2 # 10; 3 # 10; 7 # 20] = [Some 0; Some 0; Some 0; Some 0; Some (1 # 2)].
 Proof. eexists. repeat split; vm_compute; reflexivity. Qed.
 
+
+(* ---- round 5: the functions Spec.denote shares with the model (arith_trafo / par_values, Model.v) mean plain arithmetic ---- *)
+(* `pulse op s` / `s op pulse` with the scalar given as one expression of value v: on every kept channel of the body the
+   denoted piece has the value  x + v, x - v, v - x, x * v, x / v  where the body has x (scalar_meaning); a division is only
+   instantiated as pulse / s with s <> 0 *)
+Theorem C01_arith_meaning : forall look cm lhs op e chans tr v c m (p : piece) t x,
+  eval look e = Ok v -> arith_trafo look cm lhs op (inl e) chans = Ok tr ->
+  In c chans -> cm c = Some m -> cmem m (pchans p) = true -> pval p m t = Some x ->
+  oeq (pval (piece_trafo tr p) m t) (Some (scalar_meaning lhs op x v)) /\ (op = SDiv -> lhs = true /\ ~ v == 0).
+Proof.
+  intros. split.
+  - eapply arith_piece_meaning; eauto.
+  - eapply (arith_meaning look cm lhs op e chans tr v c m x); eauto.
+Qed.
+Print Assumptions C01_arith_meaning.
+
+Theorem C01_arith_scalar_div_rejected : forall look cm sc chans v,
+  scalar_values look cm sc chans = Ok v -> arith_trafo look cm false SDiv sc chans = Err EValue.
+Proof. exact arith_scalar_div_rejected. Qed.
+Print Assumptions C01_arith_scalar_div_rejected.
+
+(* the values of a parallel-channel node: a channel gets the value of the LAST entry mapped to it *)
+Theorem C01_par_values_last : forall look cm m c e v pre post acc d,
+  par_values look cm (pre ++ (c, e) :: post) acc = Ok d -> cm c = Some m -> eval look e = Ok v ->
+  (forall c' e', In (c', e') post -> cm c' <> Some m) -> cassoc m d = Some v.
+Proof. intros. eapply par_values_last; eauto. Qed.
+Print Assumptions C01_par_values_last.
+
+Example C01_arith_meaning_nonvacuous :
+  exists tr, arith_trafo (fun _ => Err EMissing) (cm_of [(ChS 1, Some (ChS 2))]) false SSub (inl (EC (3 # 1))) [ChS 1; ChS 3] = Ok tr /\
+             pval (piece_trafo tr (mkPiece 1 [ChS 2; ChS 3] (fun _ t => Some t))) (ChS 2) (1 # 4) = Some (11 # 4).
+Proof. eexists. split; vm_compute; reflexivity. Qed.
+
+(* ---- round 5 (audit): explicit non-vacuity of the sampling theorems and of C01_from_table ---- *)
+(* the hypotheses of C01_sampling_partial (and through it `lgood` of C01_sampling_loops) hold for the program of the tree of
+   C01_denotes_nonvacuous: three node kinds above five atom kinds, two channels, to_waveform succeeds *)
+Example C01_sampling_nonvacuous :
+  let p := PFor 1%N (EC 0) (EC 2) (EC 1)
+             (PArith false SSub (inl (EC 2))
+                (PArith true SMul (inr [(ChS 1, EC (1 # 2))])
+                   (PSeq [PRev (PAtom (ATable [(ChS 1, [(EC 0, EV 1%N, Hold); (EC 1, EC 1, Linear); (EC 1, EC 2, Jump)]);
+                                                (ChI 0, [(EC (1 # 2), EC 1, Hold)])]));
+                          PAtom (APoint [(EC 0, [EC 1; EC 0], Hold); (EC (3 # 2), [EV 1%N; EC 1], Linear)] [ChS 1; ChI 0]);
+                          PAtom (AMulti [AArith (AConst (EC 1) [(ChS 1, EC 1)]) OpSub
+                                                (ATable [(ChS 1, [(EC 0, EC 0, Hold); (EC 1, EC 1, Linear)])]);
+                                         AConst (EC 1) [(ChI 0, EV 1%N)]])]))) in
+  guard_C01_tables p (SDict []) (cm_of []) = true /\
+  exists prog w, create_program p [] [] None = Ok (Some prog) /\ to_waveform prog = Ok w /\
+                 cmem (ChS 1) (wchans w) = true /\ cmem (ChI 0) (wchans w) = true /\
+                 get_sampled w (ChS 1) (5 # 4) = play prog (ChS 1) (5 # 4) /\ play prog (ChS 1) (5 # 4) <> None.
+Proof. split; [reflexivity|]. eexists. eexists. repeat split; try (vm_compute; reflexivity). vm_compute. discriminate. Qed.
+
+Example C01_from_table_nonvacuous :
+  let tbl := [(0, 1, Hold); (1, 1, Hold); (1, 3, Jump); (2, 0 # 1, Linear)] in
+  tbl_guard tbl = true /\ exists w, from_table (ChS 1) tbl = Ok w /\ wsample w (ChS 1) (3 # 2) = Some (3 # 2).
+Proof. split; [reflexivity|]. eexists. split; vm_compute; reflexivity. Qed.
+
+(* ---- round 5: the two halves composed.  What the harness observes - to_waveform(program).get_sampled(channel, t) - equals the
+        DENOTATION of the template, for every tree / assignment / channel mapping / rational time in [0, duration).  `_partial`:
+        to_waveform's success and the membership of the channel in the pulse's channel sets are hypotheses; the guards are
+        those of C01_denotes ---- *)
+Theorem C01_sampled_denotes_partial : forall p env cm prog w,
+  guard_C01_par_order false p = true -> guard_C01_tables p (SDict env) (cm_of cm) = true ->
+  create_program p env cm None = Ok (Some prog) -> to_waveform prog = Ok w ->
+  exists pcs, denote_top p env cm = Ok pcs /\ wdur w == total pcs /\
+    forall c t, cmem c (wchans w) = true -> Forall (fun pc => cmem c (pchans pc) = true) pcs ->
+                0 <= t -> t < total pcs -> oeq (get_sampled w c t) (at_ pcs c t).
+Proof.
+  intros p env cm prog w Hg Ht Hcp Hw.
+  destruct (C01_denotes p env cm (Some prog) Hg Ht Hcp) as (pcs & Hd & HF & Hdur & Hplay).
+  exists pcs. split; [exact Hd|]. split.
+  - rewrite <- Hdur. apply (sampling_dur p env cm prog w Ht Hcp Hw).
+  - intros c t Hc Hall H0 H1. eapply oeq_trans.
+    + apply (C01_sampling_partial p env cm prog w Ht Hcp Hw c t Hc H0). rewrite Hdur. exact H1.
+    + apply Hplay; auto.
+Qed.
+Print Assumptions C01_sampled_denotes_partial.
